@@ -19,6 +19,7 @@ def run_check(tier, seed):
     findings = []; broken = []
     rng = random.Random(seed * 7919 + 17)
     audit = std_audit(ev, PROP, broken)
+    if tier == 'thorough' and audit['ok']: T.coqchk(PROP, ev, broken)
     ok, out, bindir = cargo_build(['transport'])
     if not ok:
         broken.append({'kind': 'harness-build', 'log': out[-3000:]})
